@@ -38,8 +38,10 @@ def check_proof(prop):
     info = {"obligations": 0, "discharged": 0, "axioms": [], "log_tail": "", "forbidden": []}
     bad = core.grep_forbidden()
     info["forbidden"] = bad
-    pf = os.path.join(core.COQ, prop.props_file)
-    src = core.strip_coq_comments(open(pf).read()) if os.path.exists(pf) else ""
+    src = ""
+    for f in [prop.props_file] + list(getattr(prop, "extra_props_files", [])):
+        pf = os.path.join(core.COQ, f)
+        src += (core.strip_coq_comments(open(pf).read()) + "\n") if os.path.exists(pf) else ""
     thms = re.findall(r"^\s*(?:Theorem|Lemma|Corollary)\s+([A-Za-z0-9_']+)", src, re.M)
     pins = re.findall(r"^\s*Check\s+([A-Za-z0-9_']+)\s*:", src, re.M)
     pa = re.findall(r"^\s*Print Assumptions\s+([A-Za-z0-9_']+)", src, re.M)
